@@ -388,6 +388,8 @@ impl ThreadPool {
     /// The `new` function will panic if the initial_worker is zero.
     pub fn new(initial_worker: usize, max_workers: usize) -> ThreadPool {
         assert!(initial_worker > 0);
+        // never start more workers than the pool may have
+        let initial_worker = initial_worker.min(max_workers.max(1));
 
         let (sender, receiver) = mpsc::channel();
 
@@ -415,9 +417,14 @@ impl ThreadPool {
         F: FnOnce() + Send + 'static,
     {
         let job = Box::new(f);
-        self.sender.send(Message::NewJob(job)).unwrap();
-        if ((self.num_busy() + 1) >= self.workers.len()) && (self.workers.len() <= self.max_workers)
+        // a job counts as busy from the moment it is queued, not only once a
+        // worker got around to picking it up
         {
+            let mut num_busy = self.num_busy.write().unwrap();
+            *num_busy += 1;
+        }
+        self.sender.send(Message::NewJob(job)).unwrap();
+        if (self.num_busy() >= self.workers.len()) && (self.workers.len() < self.max_workers) {
             self.workers.push(Worker::new(
                 Arc::clone(&self.receiver),
                 Arc::clone(&self.num_busy),
@@ -456,10 +463,6 @@ impl Worker {
 
             match message {
                 Message::NewJob(job) => {
-                    {
-                        let mut num_busy = num_busy.write().unwrap();
-                        *num_busy += 1;
-                    }
                     job.call_box();
                     {
                         let mut num_busy = num_busy.write().unwrap();
